@@ -227,10 +227,10 @@ PROPS = {
     "C18": {
         "title": "Proxy tunnelling and TLS are applied on every dial path",
         "level": "exploration",
-        "rule": "part matrix: EXHAUSTIVE enumeration of {no proxy, http, https, socks5} x {ws, wss} x {NetDial, NetDialContext, NetDialTLSContext each set/unset} x {no credentials, user, user:password} x {backend certificate valid for the host / for another host / untrusted CA} = 576 cells, two URL hosts per cell dialed on one Dialer (names, IPv4/IPv6 literals, explicit and default ports); the 117 cells whose first hop would use the default net.Dialer are counted as skipped (no real sockets in the harness). All peers are in-process goroutines behind an instrumented in-memory pipe: HTTP CONNECT proxy (optionally behind TLS), RFC 1928/1929 SOCKS5 server, TLS backend with an in-process CA, WebSocket backend echoing through the independent codec. An independent table derived from the Dialer documentation gives per cell: which custom dial function makes the first hop and to which address (default ports 80/443/1080), exactly one CONNECT for host:port (80/443 by default) with Basic Proxy-Authorization iff a password is present, the SOCKS5 target and username/password sub-negotiation, SNI = URL host, the backend receives the upgrade request only inside a verified TLS session for wss (wrong/untrusted certificate or nil TLSClientConfig => Dial fails and the backend sees no HTTP), a custom NetDialTLSContext is trusted, success cells round-trip. part hosts-and-replies: rapid-generated cells with 1-3 hosts, escaped credentials, proxy hosts with default ports and 13 refusal replies (407 with/without reason phrase, 2xx other than 200, 1xx, 3xx, 5xx, HTTP/1.0): every non-200 reply aborts Dial with an error and nothing more is sent. Non-trivial = cells with a proxy or TLS.",
+        "rule": "part matrix: EXHAUSTIVE enumeration of {no proxy, http, https, socks5} x {ws, wss} x {NetDial, NetDialContext, NetDialTLSContext each set/unset} x {no credentials, user, user:password} x {backend certificate valid for the host / for another host / untrusted CA} = 576 cells, two URL hosts per cell dialed on one Dialer (names, IPv4/IPv6 literals, explicit and default ports); in the 117 cells where no custom dial function applies the library's default net.Dialer makes the first hop to a loopback listener served by the same in-process peers (counted as skipped_no_loopback only if 127.0.0.1 cannot be listened on). All peers are in-process goroutines behind an instrumented in-memory pipe: HTTP CONNECT proxy (optionally behind TLS), RFC 1928/1929 SOCKS5 server, TLS backend with an in-process CA, WebSocket backend echoing through the independent codec. An independent table derived from the Dialer documentation gives per cell: which custom dial function makes the first hop and to which address (default ports 80/443/1080), exactly one CONNECT for host:port (80/443 by default) with Basic Proxy-Authorization iff a password is present, the SOCKS5 target and username/password sub-negotiation, SNI = URL host, the backend receives the upgrade request only inside a verified TLS session for wss (wrong/untrusted certificate or nil TLSClientConfig => Dial fails and the backend sees no HTTP), a custom NetDialTLSContext is trusted, success cells round-trip. part hosts-and-replies: rapid-generated cells with 1-3 hosts, escaped credentials, proxy hosts with default ports and 13 refusal replies (407 with/without reason phrase, 2xx other than 200, 1xx, 3xx, 5xx, HTTP/1.0): every non-200 reply aborts Dial with an error and nothing more is sent. Non-trivial = cells with a proxy or TLS.",
         "exhaustive_quick": True,
         "exhaustive_thorough": True,
-        "assumptions": TRUST + ["real networks (DNS, kernel sockets, environment-derived proxies) are replaced by in-process peers; cells needing the default net.Dialer are skipped and counted", "user-without-password for SOCKS5 is unspecified"],
+        "assumptions": TRUST + ["real networks (DNS, routed sockets, environment-derived proxies) are replaced by in-process peers; only the default-dialer cells use a loopback TCP listener", "user-without-password for SOCKS5 is unspecified"],
         "level_text": "The configuration matrix is finite and enumerated completely in every run; hosts and proxy replies are sampled.",
         "level_note": "crypto/tls and crypto/x509 (standard library) are trusted for the peer side and certificate generation.",
         "technique": "exhaustive configuration-matrix enumeration + property-based testing (rapid) of hosts/replies, table oracle from the documentation, in-process proxy/TLS peers",
